@@ -22,6 +22,30 @@ end
 """
 
 
+BLOB_HEAD = """
+Small :: blob {
+    x: int,
+}
+Big :: blob {
+    x: int,
+    y: int,
+}
+"""
+# blobs unify structurally; wherever a Small and a Big meet (either order), reading `.y` of the result must not reach run time
+BLOB_MIX = {
+    "if_small_else_big": "start :: fn do\n    small := Small { x: ?a }\n    big := Big { x: 1, y: 2 }\n    v := if ?a < 2 do small else big end\n    print(v.y + 1)\nend\n",
+    "if_big_else_small": "start :: fn do\n    small := Small { x: ?a }\n    big := Big { x: 1, y: 2 }\n    v := if ?a < 2 do big else small end\n    print(v.y + 1)\nend\n",
+    "list_of_both": "start :: fn do\n    l := [Big { x: 1, y: 2 }, Small { x: ?a }]\n    l -> for_each(fn b do print(b.y + 1) end)\nend\n",
+    "list_of_both_rev": "start :: fn do\n    l := [Small { x: ?a }, Big { x: 1, y: 2 }]\n    l -> for_each(fn b do print(b.y + 1) end)\nend\n",
+    "reassign_big_with_small": "start :: fn do\n    v := Big { x: 1, y: 2 }\n    if ?a < 2 do\n        v = Small { x: 3 }\n    end\n    print(v.y + 1)\nend\n",
+    "reassign_small_with_big": "start :: fn do\n    v := Small { x: 3 }\n    w := Big { x: 1, y: 2 }\n    if ?a < 2 do\n        w = v\n    end\n    print(w.y + 1)\nend\n",
+    "param_big_gets_small": "sum :: fn p: Big -> int do\n    ret p.x + p.y\nend\nstart :: fn do\n    print(sum(Small { x: ?a }))\nend\n",
+    "pick_in_function": "pick :: fn c: bool, a: Small, b: Big -> int do\n    v := if c do a else b end\n    v.y + 1\nend\nstart :: fn do\n    print(pick(?a < 2, Small { x: 1 }, Big { x: 1, y: 2 }))\nend\n",
+    "case_arms": "E :: enum\n    A,\n    B,\nend\nstart :: fn do\n    e := if ?a < 2 do E.A else E.B end\n    v := case e do\n        A -> Small { x: 1 } end\n        else Big { x: 1, y: 2 } end\n    end\n    print(v.y + 1)\nend\n",
+    "closure_returns_either": "start :: fn do\n    mk := fn c: bool do\n        if c do ret Big { x: 1, y: 2 } end\n        ret Small { x: 1 }\n    end\n    print(mk(?a < 2).y + 1)\nend\n",
+}
+
+
 def falls_off_possible(src):
     """does the program contain a function with a declared non-void return type whose body does not end in a
     `ret` or a value expression (so control can fall off its end)?"""
@@ -46,6 +70,8 @@ def build_templates(seed, n_rand, n_pert_each):
     out = []
     base = [dict(t) for t in templates_core.CATALOGUE] + gen.random_templates(seed, n_rand)
     base.append({"name": "falls_off_end", "role": "dropped ret: function with a declared return type can fall off its end", "dom": {"a": (0, 3)}, "text": FALLS_OFF})
+    for n, body in BLOB_MIX.items():
+        base.append({"name": "blob_mix_" + n, "role": "structurally different blobs meet (%s)" % n, "dom": {"a": (0, 3)}, "text": BLOB_HEAD + body})
     for t in base:
         t = dict(t); t["name"] = "base_" + t["name"]; out.append(t)
     for t in base:
